@@ -147,13 +147,29 @@ fn table(p: &mut P<'_>) -> Table {
             p.next();
             kvs.iter().map(|(k, v)| (k.as_str(), v.clone())).collect()
         }
+        // `T{d` a table marked dotted, `T{m` a table marked implicit (route `g` only: flags set through the API)
+        f @ ("T{d" | "T{m") => {
+            let mut t = Table::new();
+            while p.peek() != "}" {
+                let k = unhex_str(p.next());
+                let it = item(p);
+                t.insert(&k, it);
+            }
+            p.next();
+            if f == "T{d" {
+                t.set_dotted(true);
+            } else {
+                t.set_implicit(true);
+            }
+            t
+        }
         x => panic!("table token {x}"),
     }
 }
 
 fn item(p: &mut P<'_>) -> Item {
     match p.peek() {
-        "T{" | "T{i" => Item::Table(table(p)),
+        "T{" | "T{i" | "T{d" | "T{m" => Item::Table(table(p)),
         "A[" => {
             p.next();
             let mut a = ArrayOfTables::new();
@@ -271,7 +287,7 @@ pub fn run(line: &str) -> String {
     let route = toks[0];
     let mut p = P { t: toks, i: 1, fl: true };
     match route {
-        "e" => {
+        "e" | "g" => {
             let t = table(&mut p);
             let doc = DocumentMut::from(t);
             doc_out(&doc, p.fl)
